@@ -91,6 +91,10 @@ type Config struct {
 	Observed int
 	Crashes  []CrashPoint
 
+	// HoldCheckIn[i] = h: keyper i's check-in is not included in a block before height h (a keyper that comes up
+	// late; the others cannot encrypt their evaluations for it until then).
+	HoldCheckIn map[int]int64
+
 	// ExtraRounds are run after every keyper has recorded its DKG outcome and emptied its outbox
 	// (default 0).
 	ExtraRounds int
@@ -363,7 +367,24 @@ func (r *Rig) Round() *Block {
 		r.Advance(r.Keypers[i])
 	}
 	r.Tick(r.Chain.Height() + 1)
-	b := r.Chain.MakeBlock(r.Cfg.Schedule)
+	sel := r.Cfg.Schedule
+	if len(r.Cfg.HoldCheckIn) > 0 {
+		inner := sel
+		sel = func(height int64, pending []*Tx) []*Tx {
+			keep := []*Tx{}
+			for _, t := range pending {
+				if h, held := r.Cfg.HoldCheckIn[t.SignerIndex]; held && t.Kind == "checkin" && height < h {
+					continue
+				}
+				keep = append(keep, t)
+			}
+			if inner != nil {
+				return inner(height, keep)
+			}
+			return keep
+		}
+	}
+	b := r.Chain.MakeBlock(sel)
 	r.scanEvents()
 	r.round++
 	return b
